@@ -479,9 +479,10 @@ static bool would_fuse(Token *tok1, Token *tok2) {
   if (is_word_char(a) && (is_word_char(b) || b == '"' || b == '\''))
     return true;
 
-  // A pp-number continues with `.`, and with a sign after an exponent.
+  // A pp-number continues with `.`, with letters and digits even after
+  // a `.`, and with a sign after an exponent.
   bool is_num = isdigit(tok1->loc[0]) || (tok1->loc[0] == '.' && tok1->len > 1);
-  if (is_num && (b == '.' || b == '+' || b == '-'))
+  if (is_num && (b == '.' || b == '+' || b == '-' || is_word_char(b)))
     return true;
   if (a == '.' && (isdigit(b) || b == '.'))
     return true;
